@@ -577,6 +577,40 @@ example :
     s.sq = [] ∧ s.strays = 0 ∧
     s.closeLog = [(.file, 200), (.direct, 2), (.direct, 3), (.file, 200)] := by decide
 
+/-- **A panic while decoding the peer address of an accepted connection.**
+`AcceptOp::map_ok` wraps the descriptor the kernel returned before it calls
+`SocketAddress::init` (a public trait: a user implementation may panic, and the
+crate's own implementations `debug_assert!` the address family). The poll of
+such a future that reads a successful result is, state for state, the poll of an
+ordinary accept followed by the drop of the `AsyncFd` it built: every theorem
+over runs (the invariants, `C07_partial`, exactly-once closing) covers it, and
+the accepted descriptor is closed by that drop. -/
+theorem C07_accept_init_panic (s : Sys) (i : Nat) (o : FOp) (x : Res)
+    (hio : s.ops[i]? = some o) (hk : o.kind = .acceptp)
+    (hr : (o.op.poll i s.sqRoom).2.1 = .readyOk x) :
+    (s.poll i).1 = ((s.pollCore i).1.dropH s.handles.length).1 ∧
+    (s.poll i).2.head? = some "ready panic" := by
+  have hd : o.pipe2Due = false := by simp [FOp.pipe2Due, hk]
+  simp [Sys.poll, hio, hd, hk, Sys.pollPanic, hr]
+
+/-- An accepted connection whose address decoding panics: the descriptor (201)
+is closed exactly once, through the ring; with the queue full, synchronously. -/
+example :
+    let s := run (start 4 0 4 200 456)
+      [.newOp .socket .file 0, .poll 0, .rpoll, .kpost 0 (.ok [200]) false, .poll 0,
+       .newOp .acceptp .file 0, .poll 1, .rpoll, .kpost 1 (.ok [201]) false, .poll 1, .rpoll]
+    s.descs.map (fun e => (e.kind, e.raw, e.st, e.closes, e.wraps)) =
+      [(.file, 200, .owned 0, 0, 1), (.file, 201, .closed, 1, 1)] ∧
+    s.closeLog = [(.file, 201)] ∧ (s.handles.map (·.live)) = [true, false] := by decide
+
+example :
+    let s := run (start 1 0 4 200 456)
+      [.newOp .socket .file 0, .poll 0, .rpoll, .kpost 0 (.ok [200]) false, .poll 0,
+       .newOp .acceptp .file 0, .poll 1, .rpoll, .kpost 1 (.ok [201]) false,
+       .newOp .open .file 0, .poll 2, .poll 1]
+    s.descs.map (fun e => (e.kind, e.raw, e.st, e.closes)) =
+      [(.file, 200, .owned 0, 0), (.file, 201, .closed, 1)] ∧ s.closeLog = [(.file, 201)] := by decide
+
 /-- Queue-full fallback (`sq = 1`, one unconsumed submission): `close(2)` for the
 regular descriptor, `FILES_UPDATE(-1)` for the direct one; and an explicit
 `AsyncFd::close` polled to completion. -/
